@@ -392,6 +392,19 @@ func (cs *ContractSet) loadFile(path string, pkgPath string) error {
 				return fmt.Errorf("%s: %s: %v", path, cur.Key, err)
 			}
 			cur.Clauses = append(cur.Clauses, &Clause{Kind: "set", Exprs: []ast.Expr{lhs}, Expr: e, Src: rest, Line: ln})
+		case "range":
+			// range <n> invariant [name:] expr   — invariant of the n-th sync.Map.Range call of the function
+			var n int
+			if _, err := fmt.Sscanf(f[1], "%d", &n); err != nil || len(f) < 4 || f[2] != "invariant" {
+				return fmt.Errorf("%s: bad range clause %q", path, ln)
+			}
+			body := strings.TrimSpace(ln[strings.Index(ln, "invariant")+len("invariant"):])
+			cl, err := mk("rangeinv", body)
+			if err != nil {
+				return err
+			}
+			cl.Loop = n
+			cur.Clauses = append(cur.Clauses, cl)
 		case "loop":
 			var n int
 			if _, err := fmt.Sscanf(f[1], "%d", &n); err != nil || len(f) < 4 {
